@@ -9,7 +9,7 @@ from __future__ import annotations
 
 import asyncio
 import math
-from datetime import timedelta
+from datetime import timedelta, timezone
 from typing import Any
 
 from sim.env import Sim
@@ -191,19 +191,33 @@ async def stop_all(b: Built) -> None:
 
 
 # ------------------------------------------------------------------ the streams
-def grid_ts(sim: Sim, k: int) -> Any:
-    return sim.epoch + timedelta(seconds=k)
+_OFFSETS = [None, timezone(timedelta(hours=2)), timezone(-timedelta(hours=7)), timezone(timedelta(hours=5, minutes=45))]
+
+
+def draw_stream_offsets(sim: Sim, streams: list[Any]) -> None:
+    """In a quarter of the runs every input stream stamps its samples in its own UTC offset (same instants)."""
+    sim.stream_tz = {}  # type: ignore[attr-defined]
+    if sim.ch.chance("streams_in_other_utc_offsets", 0.25):
+        for st in streams:
+            sim.stream_tz[st] = _OFFSETS[sim.ch.draw("stream_utc_offset", len(_OFFSETS))]  # type: ignore[attr-defined]
+        sim.probe("input_stamped_in_other_utc_offset")
+
+
+def grid_ts(sim: Sim, k: int, stream: Any = None) -> Any:
+    ts = sim.epoch + timedelta(seconds=k)
+    tz = getattr(sim, "stream_tz", {}).get(stream)
+    return ts if tz is None else ts.astimezone(tz)
 
 
 def ts_index(sim: Sim, ts: Any) -> int:
     return round((ts - sim.epoch).total_seconds())
 
 
-def make_sample(sim: Sim, k: int, value: float | None) -> Any:
+def make_sample(sim: Sim, k: int, value: float | None, stream: Any = None) -> Any:
     from frequenz.quantities import Power
     from frequenz.sdk.timeseries import Sample
 
-    return Sample(grid_ts(sim, k), None if value is None else Power.from_watts(value))
+    return Sample(grid_ts(sim, k, stream), None if value is None else Power.from_watts(value))
 
 
 def val(i: int, k: int) -> float:
